@@ -213,7 +213,7 @@ Qed.
 Lemma gated_not_deferred s t :
   gated t = true -> must_defer s t = false -> t = MSG_NEWKEYS \/ kex_complete s = true.
 Proof.
-  unfold gated, must_defer, MSG_NEWKEYS, MSG_SERVICE_REQUEST, MSG_USERAUTH_FIRST, MSG_DEBUG,
+  unfold gated, must_defer, MSG_NEWKEYS, MSG_SERVICE_REQUEST, MSG_USERAUTH_REQUEST, MSG_DEBUG,
     MSG_SERVICE_ACCEPT, MSG_KEX_LAST, MSG_USERAUTH_BANNER, MSG_USERAUTH_LAST.
   intros Hg Hd. destruct (kex_complete s); [right; reflexivity | left].
   cbn [negb] in Hd. rewrite !andb_true_r in Hd.
